@@ -73,4 +73,12 @@ def poly_mc(ck):
 
 def run(ck):
     poly_mc(ck)
+    ck.mc("MC_FloodFill", "MC_FloodFill.cfg" if ck.quick else "MC_FloodFill_deep.cfg", workers=vlib.NCPU, xmx="16g", timeout=3400,
+          what="the legacy fill (edge trace + neighbour flood) as a state machine on the 2-disk of a pentagon at r=1: for every inside set "
+               "of <= %d cells and every trace of <= 2 cells it terminates, returns nothing outside, and returns exactly the components of "
+               "the inside set within one step of the trace - exact iff the trace reaches every component" % (3 if ck.quick else 4))
+    neg = vlib.tlc("MC_FloodFill", "MC_FloodFill_neg.cfg", workers=vlib.NCPU, xmx="8g")
+    if neg["verdict"] != "invariant":
+        raise vlib.InfraError("negative control (fill exact without the trace precondition) was not rejected: %s" % neg["verdict"])
+    ck.ev.notes.append("negative control: without the trace precondition the flood-fill model loses inside cells (as the antimeridian defect did)")
     poly_trace(ck, "C07")
